@@ -276,10 +276,14 @@ class Executor:
             return z3.BoolVal(False)
         if isinstance(a, VOpt) or isinstance(b, VOpt):
             if isinstance(a, VOpt) and isinstance(b, VOpt):
-                return a.t == b.t
+                if a.ty != b.ty:
+                    raise EngineUnsupported("== on optionals of different types")
+                na, nb = a.ty.is_none(a.t), b.ty.is_none(b.t)
+                return z3.And(na == nb, z3.Implies(z3.Not(na), self.eq(st, from_term(a.ty.val(a.t), a.ty.elem),
+                                                                         from_term(b.ty.val(b.t), b.ty.elem))))
             o, x = (a, b) if isinstance(a, VOpt) else (b, a)
             x = self.freeze(st, x, o.ty.elem)
-            return o.t == o.ty.some(to_term(x, o.ty.elem))
+            return z3.And(z3.Not(o.ty.is_none(o.t)), self.eq(st, from_term(o.ty.val(o.t), o.ty.elem), x))
         if isinstance(a, VBool) and isinstance(b, VBool):
             return a.t == b.t
         if isinstance(a, (VInt, VBool)) and isinstance(b, (VInt, VBool)):
@@ -289,7 +293,10 @@ class Executor:
         if isinstance(a, VStr) != isinstance(b, VStr):
             if isinstance(a, (VInt, VBool, VStr)) and isinstance(b, (VInt, VBool, VStr)):
                 return z3.BoolVal(False)
-        fa, fb = self.freeze(st, a), self.freeze(st, b)
+        # a dict / list object compared with a typed value takes that value's type
+        ta = ty_of_val(a) if isinstance(a, (VRec, VSeq)) else None
+        tb = ty_of_val(b) if isinstance(b, (VRec, VSeq)) else None
+        fa, fb = self.freeze(st, a, tb), self.freeze(st, b, ta)
         if isinstance(fa, VTuple) and isinstance(fb, VTuple):
             if len(fa.items) != len(fb.items):
                 return z3.BoolVal(False)
@@ -305,6 +312,18 @@ class Executor:
         if isinstance(fa, VRec) and isinstance(fb, VRec):
             if fa.ty != fb.ty:
                 raise EngineUnsupported(f"== on records of different types {fa.ty} / {fb.ty}")
+            if any(o or isinstance(t, (TSeq, TRec, TOpt)) for _, t, o in fa.ty.fields):
+                # dict equality: same keys present, equal values for the present keys
+                cs = []
+                for k, fty, o in fa.ty.fields:
+                    va, vb = from_term(fa.ty.get(fa.t, k), fty), from_term(fb.ty.get(fb.t, k), fty)
+                    e = self.eq(st, va, vb)
+                    if o:
+                        ha, hb = fa.ty.has(fa.t, k), fb.ty.has(fb.t, k)
+                        cs.append(z3.And(ha == hb, z3.Implies(ha, e)))
+                    else:
+                        cs.append(e)
+                return z3.And(*cs)
             return fa.t == fb.t
         raise EngineUnsupported(f"== between {a!r} and {b!r}")
 
@@ -884,6 +903,12 @@ class Executor:
                 c = s2.cell(v)
                 if isinstance(c, DictCell) and isinstance(hint, TRec) and c.ty is None:
                     s2.set_cell(v, DictCell(c.items, c.present, hint, c.owner))
+                    for k2, fty, _o in hint.fields:
+                        iv = c.items.get(k2)
+                        if isinstance(fty, TSeq) and isinstance(iv, VRef) and isinstance(s2.cell(iv), ListCell):
+                            lc2 = s2.cell(iv)
+                            if lc2.elem is None and not lc2.items:
+                                s2.set_cell(iv, ListCell(fty.elem, z3.Empty(fty.sort()), None, lc2.owner))
                 if isinstance(c, ListCell) and c.elem is None and not c.items and isinstance(hint, TSeq):
                     s2.set_cell(v, ListCell(hint.elem, z3.Empty(hint.sort()), None, c.owner))
             return self.assign(s2, s.target, v)
